@@ -62,13 +62,18 @@ static edn_value_t** edn_collection_builder_finish(edn_collection_builder_t* bui
                                                    size_t* out_count) {
     *out_count = builder->count;
 
-    if (builder->elements == builder->inline_storage && builder->count > 0) {
+    if (builder->elements == builder->inline_storage) {
+        /* The inline storage lives in the caller's stack frame and must never
+         * escape: NULL tells the caller that the permanent copy failed. */
+        if (builder->count == 0) {
+            return NULL;
+        }
         edn_value_t** permanent =
             edn_arena_alloc(builder->arena, builder->count * sizeof(edn_value_t*));
         if (permanent != NULL) {
             memcpy(permanent, builder->inline_storage, builder->count * sizeof(edn_value_t*));
-            return permanent;
         }
+        return permanent;
     }
 
     return builder->elements;
@@ -124,6 +129,11 @@ edn_value_t* edn_read_list(edn_parser_t* parser) {
 
     size_t count;
     edn_value_t** elements = edn_collection_builder_finish(&builder, &count);
+    if (elements == NULL && count > 0) {
+        parser->error = EDN_ERROR_OUT_OF_MEMORY;
+        parser->error_message = "Out of memory while building list";
+        return NULL;
+    }
 
     edn_value_t* value = edn_arena_alloc_value(parser->arena);
     if (value == NULL) {
@@ -191,6 +201,11 @@ edn_value_t* edn_read_vector(edn_parser_t* parser) {
 
     size_t count;
     edn_value_t** elements = edn_collection_builder_finish(&builder, &count);
+    if (elements == NULL && count > 0) {
+        parser->error = EDN_ERROR_OUT_OF_MEMORY;
+        parser->error_message = "Out of memory while building vector";
+        return NULL;
+    }
 
     edn_value_t* value = edn_arena_alloc_value(parser->arena);
     if (value == NULL) {
@@ -258,6 +273,11 @@ edn_value_t* edn_read_set(edn_parser_t* parser) {
 
     size_t count;
     edn_value_t** elements = edn_collection_builder_finish(&builder, &count);
+    if (elements == NULL && count > 0) {
+        parser->error = EDN_ERROR_OUT_OF_MEMORY;
+        parser->error_message = "Out of memory while building set";
+        return NULL;
+    }
 
     /* Check for duplicate elements (EDN spec requirement) */
     if (count > 1 && edn_has_duplicates(elements, count)) {
@@ -354,7 +374,14 @@ static void edn_map_builder_finish(edn_map_builder_t* builder, edn_value_t*** ou
     *out_count = builder->count;
 
     /* If using inline storage and we have entries, allocate permanent storage */
-    if (builder->keys == builder->inline_keys && builder->count > 0) {
+    if (builder->keys == builder->inline_keys) {
+        /* The inline storage lives in the caller's stack frame and must never
+         * escape: NULL tells the caller that the permanent copy failed. */
+        *out_keys = NULL;
+        *out_values = NULL;
+        if (builder->count == 0) {
+            return;
+        }
         edn_value_t** permanent_keys =
             edn_arena_alloc(builder->arena, builder->count * sizeof(edn_value_t*));
         edn_value_t** permanent_values =
@@ -364,8 +391,8 @@ static void edn_map_builder_finish(edn_map_builder_t* builder, edn_value_t*** ou
             memcpy(permanent_values, builder->inline_values, builder->count * sizeof(edn_value_t*));
             *out_keys = permanent_keys;
             *out_values = permanent_values;
-            return;
         }
+        return;
     }
 
     *out_keys = builder->keys;
@@ -524,6 +551,11 @@ static edn_value_t* edn_read_map_internal(edn_parser_t* parser, const char* valu
     edn_value_t** values;
     size_t count;
     edn_map_builder_finish(&builder, &keys, &values, &count);
+    if (keys == NULL && count > 0) {
+        parser->error = EDN_ERROR_OUT_OF_MEMORY;
+        parser->error_message = "Out of memory while building map";
+        return NULL;
+    }
 
     /* Check for duplicate keys (EDN spec requirement) */
     if (count > 1) {
